@@ -13,6 +13,8 @@ A_NOTE = ('Trusted base: CrossHair 0.0.110 + z3 (its models of int/list/str and 
           'oracle in the harness. Counterexamples are re-run concretely without CrossHair before being reported.')
 A_TECH = 'CrossHair symbolic execution (z3) of the real functions over symbolic inputs within `pre:` bounds; reachability twin per condition; concrete replay of counterexamples'
 CHECKS = {
+    'C13': ('A', 'other', 'Premature destruction or a leak depends on the order of increments and decrements across pickling, rebuilding, nesting and finalizers; every operation skeleton (with symbolic operands) is run on the real reference-counting code over an in-process transport and compared with a reference-count model after every step. MemoryBlock/shared memory and real process exit are outside.', '3 C13'),
+    'C14': ('A', 'other', 'Equivalence with a local object over all 2-operation (3 in thorough) sequences of list and dict operations through two proxies, including the failing ones, plus managed() return values, Value and Namespace, on the real dispatch code with real pickling.', '3 C14'),
     'C09': ('B', 'model_checking', 'The real batching threads (collector, consumer, the SingleLane between them, the shared read lock and the batch-get event) run inside a real ThreadServlet; an instrumented call() asserts well-formed batches and records their composition, lone-request service is the progress query; exact release timing is checked by CrossHair units under a virtual clock. Bounds: batch_size 2, <= 2 requests.', '3 C09'),
     'C16': ('B', 'model_checking', 'PARTIAL (async_fifo_stream and AsyncParmapperAsync; AsyncServer outside): the same sequential-meaning oracle as C01 is checked on a model of the asyncio loop (tasks = threads, loop = one mutex given up only at suspension points), so every completion order of the worker tasks and every preprocessor-failure position is covered; counterexamples are confirmed on the real event loop.', '3 C16'),
     'C04': ('B', 'model_checking', 'PARTIAL (plain and sequential thread servlets, no batching/ensemble): which request fails at which site is a symbolic input per request and the callers run concurrently, so the solver covers every failing subset and every interleaving of the short-circuited errors with regular results.', '3 C04'),
@@ -39,8 +41,6 @@ CHECKS = {
 }
 NA = {
     'C20': 'the verdict would rest on a stub of multiprocessing.Queue (feeder thread, pipe capacity) rather than on mpservice code; reproduced by hand only (DESIGN.md section 4)',
-    'C13': 'planned as CrossHair harnesses over an in-process manager transport; not built in this round',
-    'C14': 'planned as CrossHair harnesses over an in-process manager transport; not built in this round',
 }
 checks = []
 for pid, (eng, cat, text, ref) in CHECKS.items():
